@@ -26,6 +26,11 @@ func (fv *funcVerifier) staticCallee(call *ast.CallExpr) *types.Func {
 					return fn
 				}
 			}
+			if sel.Kind() == types.MethodExpr {
+				if fn, ok := sel.Obj().(*types.Func); ok {
+					return fn
+				}
+			}
 			return nil
 		}
 		if fn, ok := fv.info.Uses[f.Sel].(*types.Func); ok {
@@ -199,6 +204,17 @@ func (fv *funcVerifier) evalCall(st *State, call *ast.CallExpr) []smt.Term {
 		return fv.freshResults(st, call, "iife")
 	}
 	fn := fv.staticCallee(call)
+	if fn != nil && fv.isMethodExpr(call) {
+		// T.Method(recv, args...): evaluated generically
+		for _, a := range call.Args {
+			fv.evalExpr(st, a)
+		}
+		if !isNoEffect(fn.FullName(), fn) {
+			fv.note("method expression call %s: heap havocked", fn.FullName())
+			fv.havocAll(st)
+		}
+		return fv.freshResults(st, call, fn.Name())
+	}
 	if fn != nil {
 		full := fn.FullName()
 		if h, ok := libModels[full]; ok {
@@ -413,6 +429,9 @@ func (fv *funcVerifier) evalBuiltin(st *State, call *ast.CallExpr, name string) 
 		fv.unsupported("make of %s", t)
 	case "new":
 		pt := fv.typeOf(call).Underlying().(*types.Pointer)
+		if full, ok := opaqueNamed(pt.Elem()); ok && full == "math/big.Int" {
+			return []smt.Term{fv.bigNew(st, smt.IntLit(0), true)}
+		}
 		r := fv.alloc(st, "new")
 		fv.storeAt(st, r, pt.Elem(), fv.so.zero(pt.Elem()))
 		return []smt.Term{r}
@@ -487,6 +506,7 @@ func (fv *funcVerifier) evalAppend(st *State, call *ast.CallExpr) smt.Term {
 			elemAt = func(j smt.Term) smt.Term { return smt.App(smt.Int, "str_at", src, j) }
 		} else {
 			k = slLen(src)
+			fv.instFrames(key, slArr(src))
 			m0 := fv.heapGet(st, key)
 			elemAt = func(j smt.Term) smt.Term {
 				return smt.Select(smt.Select(m0, slArr(src)), smt.Add(slOff(src), j))
@@ -507,6 +527,7 @@ func (fv *funcVerifier) evalAppend(st *State, call *ast.CallExpr) smt.Term {
 		// growth beyond the assumed maximum length is outside the model
 		fv.assume(st, smt.Le(newLen, smt.IntLit(maxLen)))
 	}
+	fv.instFrames(key, slArr(s))
 	m := fv.heapGet(st, key)
 	fv.mut++
 	// in-place contents
@@ -550,6 +571,8 @@ func (fv *funcVerifier) evalCopy(st *State, call *ast.CallExpr) smt.Term {
 	es := fv.so.sortOf(dt.Elem())
 	var srcLen smt.Term
 	var elemAt func(j smt.Term) smt.Term
+	fv.instFrames(key, slArr(dst))
+	fv.instFrames(key, slArr(src))
 	m := fv.heapGet(st, key)
 	if isString(fv.typeOf(call.Args[1])) {
 		srcLen = smt.App(smt.Int, "str_len", src)
@@ -605,3 +628,12 @@ func (fv *funcVerifier) callRepo(st *State, call *ast.CallExpr, fn *types.Func) 
 }
 
 var _ = token.NoPos
+
+func (fv *funcVerifier) isMethodExpr(call *ast.CallExpr) bool {
+	if f, ok := ast.Unparen(call.Fun).(*ast.SelectorExpr); ok {
+		if sel, ok := fv.info.Selections[f]; ok && sel.Kind() == types.MethodExpr {
+			return true
+		}
+	}
+	return false
+}
